@@ -1468,8 +1468,19 @@ class Engine:
             args = [self.ev(a, env, g) for a in n.args]
             if args:
                 return SuperProxy(args[0], args[1])
-            if '__class__' in env and 'self' in env:
-                return SuperProxy(env['__class__'], env['self'])
+            def look(nm):
+                e_ = env
+                while e_ is not None:
+                    if nm in e_:
+                        return e_[nm]
+                    e_ = e_.get('__parent__')
+                return None
+            klass = look('__class__')
+            if klass is not None and self.frames:
+                # zero-argument super(): the first positional parameter of the running method
+                first = look('self') if look('self') is not None else look('cls')
+                if first is not None:
+                    return SuperProxy(klass, first)
             raise Unsupported('bare super')
         f = self.ev(n.func, env, g)
         args = []
